@@ -42,6 +42,8 @@ pub fn corpus(extras: bool, thorough: bool) -> Vec<G> {
         // by ?, *, | and followed by a reader of the position (the generator must rewind)
         "(\"a\" ~ x+ ~ \"b\"?)? ~ ANY*", "(\"a\" ~ \"b\"+ ~ x? | x) ~ ANY*", "(\"a\" ~ (x ~ \"b\" | \"b\") | ANY ~ x) ~ ANY?", "(\"a\" ~ (x ~ (\"b\" ~ x)* ~ \"a\" | \"a\") | x ~ \"b\") ~ ANY*",
         "(\"a\" ~ x* ~ \"b\")* ~ ANY*", "(x ~ \"b\"? ~ x)? ~ ANY*", "(\"a\" ~ (\"b\"? ~ x))* ~ ANY*", "(\"a\" ~ \"b\"* ~ x | \"a\" ~ \"b\") ~ ANY*", "!(\"a\" ~ x? ~ \"b\") ~ ANY ~ ANY*",
+        // stack matchers directly under a repetition (a half-matched iteration must not move the cursor)
+        "PUSH(x) ~ PUSH(\"b\") ~ PEEK_ALL* ~ ANY*", "PUSH(x) ~ PUSH(\"b\") ~ PEEK[0..]* ~ ANY*", "PUSH(x) ~ PUSH(\"b\") ~ PEEK_ALL+ ~ x? ~ ANY?", "PUSH(x) ~ PUSH(\"b\") ~ (PEEK[..] | x)* ~ ANY?", "PUSH(\"b\") ~ PUSH(x) ~ PUSH(x) ~ DROP* ~ PEEK_ALL ~ EOI", "PUSH(x) ~ PUSH(\"b\") ~ PEEK_ALL* ~ \"b\" ~ ANY*", "PUSH(x) ~ PUSH(\"b\") ~ PEEK[0..]* ~ x ~ ANY*",
         // every PEEK slice form where its direction and bounds are observable
         "PUSH(x) ~ PUSH(\"b\") ~ PEEK[..] ~ EOI", "PUSH(x) ~ PUSH(\"b\") ~ (PEEK[0..] | PEEK_ALL) ~ ANY*", "PUSH(x) ~ PUSH(\"b\") ~ PEEK[..2] ~ x?", "PUSH(x) ~ PUSH(\"b\") ~ PEEK[-2..] ~ \"b\"?", "PUSH(x) ~ PUSH(\"b\") ~ PEEK[1..] ~ PEEK[..1] ~ ANY?", "PUSH(x) ~ PUSH(\"b\") ~ PEEK[..-1] ~ PEEK[-1..] ~ ANY?",
         // equal and zero bounds, the skipper shape under +, mixed-case insensitive literal
@@ -50,7 +52,9 @@ pub fn corpus(extras: bool, thorough: bool) -> Vec<G> {
     if extras {
         forms.extend(["(#t = x) ~ x", "#t = (x ~ x)", "(#t = x)*", "#t = x? ~ \"a\"", "x ~ (#t = \"a\"?)", "(#t = x | #u = \"b\")+", "PUSH_LITERAL(\"a\") ~ x ~ POP", "#t = (x+)", "x ~ #t = (\"b\"*) ~ x", "(#t = x ~ \"b\")?", "#t = x*", "#t = (x ~ \"b\")* ~ x?", "\"b\"? ~ #t = x* ~ #u = x?", "#t = (x | \"b\")*",
             // stack-changing matchers under a tag (the optimizer must still see them)
-            "PUSH(x) ~ PUSH(\"b\") ~ (#t = POP*) ~ PEEK_ALL? ~ ANY*", "PUSH(x) ~ PUSH(\"b\") ~ #t = POP? ~ PEEK ~ ANY?", "PUSH(x) ~ PUSH(\"b\") ~ (#t = (POP_ALL | x)) ~ PEEK? ~ ANY*", "PUSH(x) ~ (#t = (DROP ~ \"b\"))? ~ PEEK ~ ANY*", "PUSH(x) ~ PUSH(\"b\") ~ (#t = POP*) ~ (PEEK | \"b\") ~ ANY*", "PUSH(x) ~ PUSH(\"b\") ~ (#t = POP*) ~ DROP ~ ANY*"]);
+            "PUSH(x) ~ PUSH(\"b\") ~ (#t = POP*) ~ PEEK_ALL? ~ ANY*", "PUSH(x) ~ PUSH(\"b\") ~ #t = POP? ~ PEEK ~ ANY?", "PUSH(x) ~ PUSH(\"b\") ~ (#t = (POP_ALL | x)) ~ PEEK? ~ ANY*", "PUSH(x) ~ (#t = (DROP ~ \"b\"))? ~ PEEK ~ ANY*", "PUSH(x) ~ PUSH(\"b\") ~ (#t = POP*) ~ (PEEK | \"b\") ~ ANY*", "PUSH(x) ~ PUSH(\"b\") ~ (#t = POP*) ~ DROP ~ ANY*",
+            // two literal entries: a half-matched second iteration fits into three characters
+            "PUSH_LITERAL(\"a\") ~ PUSH_LITERAL(\"b\") ~ PEEK_ALL* ~ \"b\" ~ ANY*", "PUSH_LITERAL(\"a\") ~ PUSH_LITERAL(\"b\") ~ PEEK[..]* ~ x ~ ANY*", "PUSH_LITERAL(\"a\") ~ PUSH_LITERAL(\"b\") ~ (PEEK_ALL | \"b\")+ ~ ANY?"]);
     }
     let wss: Vec<(&str, &str)> = vec![
         ("", ""),
